@@ -42,7 +42,10 @@ func main() {
 		type bref struct{ ti, bi int }
 		index := map[*bridgedesc.Binding]bref{}
 		var keep []*bridgedesc.Target
+		var unboundPaths []string
+		catchAllNext := false
 		for ti := 0; ti < nt; ti++ {
+			catchAllNext = false
 			desc := &bridgedesc.Target{Name: fmt.Sprintf("t%d", ti)}
 			bindingsVal := vc.L{}
 			ns := 1 + rr.Intn(2)
@@ -64,12 +67,24 @@ func main() {
 						// no bindings: the default POST /package.Service/Method
 						bindingsVal = append(bindingsVal, vc.L{"POST", m.RPCName})
 						bi++
+						unboundPaths = append(unboundPaths, m.RPCName)
+						catchAllNext = rr.Chance(40)
 						continue
 					}
 					m.Bindings = make([]bridgedesc.Binding, nb)
 					for k := 0; k < nb; k++ {
 						t := vtmpl.Gen(rr)
 						text := t.Render(rr)
+						if catchAllNext && k == 0 {
+							// a POST binding that also matches the default path of the unbound method declared BEFORE it: description
+							// order must decide (the default binding stands at its method's own position)
+							catchAllNext = false
+							text = rr.Pick([]string{"/{svc}/{m}", "/**", "/{all=**}", "/*/*"})
+							m.Bindings[k] = bridgedesc.Binding{HTTPMethod: "POST", Pattern: text}
+							bindingsVal = append(bindingsVal, vc.L{"POST", text})
+							bi++
+							continue
+						}
 						if rr.Chance(8) {
 							text = vtmpl.Mutate(rr, text) // a template that may be rejected: then there is no such route
 						} else {
@@ -126,6 +141,8 @@ func main() {
 						raw += ":" + all[cands[rr.Intn(len(cands))]].Verb
 					}
 				}
+			case len(unboundPaths) > 0 && rr.Chance(50):
+				raw, preferred = unboundPaths[rr.Intn(len(unboundPaths))], "POST"
 			case rr.Chance(50):
 				raw = fmt.Sprintf("/pkg%d.Svc%d/M%d", rr.Intn(nt), rr.Intn(2), rr.Intn(3))
 			default:
